@@ -33,6 +33,24 @@ def compile_driver(build, out="rtdrv", extra=""):
     return build.compile("rtdrv.c", out, libs="rt", extra=extra)
 
 
+def compile_shim(build):
+    out = os.path.join(build.root, "shim.so")
+    src = os.path.join(os.path.dirname(os.path.dirname(os.path.abspath(__file__))), "csrc", "shim.c")
+    r = subprocess.run(["gcc", "-O1", "-g", "-shared", "-fPIC", "-o", out, src, "-ldl"], capture_output=True, text=True)
+    if r.returncode != 0:
+        raise RuntimeError("shim build failed: " + r.stderr)
+    return out
+
+
+def shim_env(shim, short=None, readdir=None):
+    e = {"LD_PRELOAD": shim, "ASAN_OPTIONS": tools.ASAN_OPTS + ":verify_asan_link_order=0"}
+    if short:
+        e["SHIM_SHORT"] = short
+    if readdir is not None:
+        e["SHIM_READDIR"] = str(readdir)
+    return e
+
+
 class RunResult:
     def __init__(self):
         self.res = None
@@ -111,6 +129,10 @@ def expected_stream(lines, rr, who):
             mcv = bytes.fromhex(a[0]).decode("latin-1")
             clock = int(st[1][0])
             out.append({"mcv": mcv, "clock": clock, "payload": jumbo_data(int(a[2]), int(a[3])), "jumbo": True})
+        elif cmd == "jumbolit":
+            mcv = bytes.fromhex(a[0]).decode("latin-1")
+            data = bytes.fromhex(a[2]) if a[2] != "-" else b""
+            out.append({"mcv": mcv, "clock": int(st[1][0]), "payload": data, "jumbo": True})
         elif cmd in ("mset", "mpush", "mpop"):
             mcv = {"mset": "OM=", "mpush": "OM[", "mpop": "OM]"}[cmd]
             payload = struct.pack("<qi", int(a[1]), int(a[0]))
